@@ -439,6 +439,7 @@ class Walker:
             self.expr(st.iter, facts)
             assigned = assigned_names(st.body) | set(target_names(st.target))
             fh = self._havoc_loop(facts, st.body, assigned)
+            fh = self._monotone(facts, fh, st.body)
             fb = self._bind_iter(st.target, st.iter, fh)
             self._visit_target(st.target, fb)
             self.block(st.body, fb)
